@@ -95,6 +95,21 @@ func trimStack(st []byte) string {
 }
 
 // panicInRepo reports whether the innermost non-runtime frame of a recovered panic lies in /repo.
+// panicInDependency: the innermost frame that is neither the Go runtime nor this harness lies outside /repo
+// (a dependency of dyntpl, e.g. a code-generated inspector indexing with a negative number).
+func panicInDependency(p string) bool {
+	for _, l := range strings.Split(p, "\n") {
+		l = strings.TrimSpace(l)
+		if strings.HasPrefix(l, "/") && strings.Contains(l, ".go:") {
+			if strings.Contains(l, "/verif/harness/") || strings.Contains(l, "/src/runtime/") {
+				continue
+			}
+			return !strings.HasPrefix(l, "/repo/")
+		}
+	}
+	return false
+}
+
 func panicInRepo(p string) bool {
 	for _, l := range strings.Split(p, "\n") {
 		l = strings.TrimSpace(l)
